@@ -1169,13 +1169,71 @@ def blankIf : IfCfg := { ip := 0#32, mask := none }
 def specNics (m : Assoc Nat IfCfg) : List Nic :=
   (List.range m.length).map fun j => nicOf ((alookup (j + 2) m).getD blankIf)
 
+/-! ### ACL rules at their stated positions, router ports, users, folders: read from the file by LOOKUP
+
+None of these consults the closed form: an ACL is described position by position ("position p holds the rule the file lists under
+key p; otherwise the rule every router carries there, or nothing"), a router port by its number, a user and a folder by name. -/
+
+/-- the rules every router carries without being asked: ARP at 22, ICMP at 23 (docs: router.rst, "acl") -/
+def routerDefaultAt (p : Nat) : Option Rule := if p = 22 then some ruleArp else if p = 23 then some ruleIcmp else none
+
+def noDefaultAt (_ : Nat) : Option Rule := none
+
+/-- an ACL of `aclSlots` positions with implicit action `imp`: position `p` holds the rule the file lists under key `p` (its
+match counter at 0), else the default rule of that position, else nothing -/
+def specAclOf (imp : Action) (dflt : Nat → Option Rule) (m : Assoc Nat Rule) : Acl :=
+  { rules := (List.range aclSlots).map fun p =>
+      match alookup p m with
+      | some r => some { r with hits := 0 }
+      | none => dflt p,
+    implicit := imp }
+
+/-- the six ACLs of a firewall with their implicit actions (docs: firewall.rst): traffic towards the inside is denied unless a
+rule permits it, traffic of the external port is permitted unless a rule denies it -/
+def specFwAcls : List (String × Action) :=
+  [("internal_inbound_acl", .deny), ("internal_outbound_acl", .deny), ("dmz_inbound_acl", .deny), ("dmz_outbound_acl", .deny),
+   ("external_inbound_acl", .permit), ("external_outbound_acl", .permit)]
+
+def specAcls (n : NodeCfg) : List (String × Acl) :=
+  match n.kind with
+  | .router | .wirelessRouter => [("acl", specAclOf .deny routerDefaultAt n.acl)]
+  | .firewall =>
+    ("acl", specAclOf .deny routerDefaultAt []) ::
+      specFwAcls.map fun e => (e.1, specAclOf e.2 noDefaultAt (if n.fwAclPresent then (alookup e.1 n.fwAcl).getD [] else []))
+  | _ => []
+
+/-- router port number `k` (1 … num_ports) carries the address the file gives under key `k`, else 127.0.0.1/8 -/
+def specPorts (num : Nat) (m : Assoc Nat IfCfg) : List Nic :=
+  (List.range' 1 num).map fun k =>
+    match alookup k m with
+    | some c => { name := none, ip := some c.ip, mask := some (c.mask.getD defaultMask) }
+    | none => { name := none, ip := some loopbackIp, mask := some loopbackMask }
+
+/-- the accounts of a node by name: `admin` / `admin` (an administrator), and for every name the file lists the password and
+flag of the entry of that name -/
+def specUsers (n : NodeCfg) : List UserInv :=
+  { name := "admin", password := "admin", admin := true } ::
+    (n.users.map (·.name)).filterMap fun nm =>
+      (n.users.find? (·.name = nm)).map fun u => { name := nm, password := u.password, admin := u.admin.getD false }
+
+/-- the folders of a host by name, each with the files the file lists under that folder, by name -/
+def specFolders (n : NodeCfg) : List FolderCfg :=
+  (n.folders.map (·.name)).filterMap fun nm =>
+    (n.folders.find? (·.name = nm)).map fun fd =>
+      { name := nm, files := (fd.files.map (·.name)).filterMap fun fnm => fd.files.find? (·.name = fnm) }
+
 def specNode (d : DefaultsCfg) (n : NodeCfg) : NodeInv :=
   let base := declaredNode d n
+  let net : Bool := n.kind = .switch ∨ n.kind = .router ∨ n.kind = .firewall ∨ n.kind = .wirelessRouter
   { base with
     software := (specSoftware d (n.power.getD .on) n.kind n).map (declaredOuter n),
     nics := match n.kind with
       | .computer | .server | .printer => { name := none, ip := n.ip, mask := some (n.mask.getD defaultMask) } :: specNics n.nics
-      | _ => base.nics }
+      | .router => specPorts (n.numPorts.getD defaultRouterPorts) n.ports
+      | _ => base.nics,
+    acls := specAcls n,
+    users := if n.kind = .switch then [] else specUsers n,
+    folders := if net then [] else specFolders n }
 
 def specNodes (s : Scenario) : List NodeInv :=
   s.nodes.map (specNode s.defaults)
